@@ -69,6 +69,7 @@ func LoadLTS(path string) (*LTS, error) {
 // Mismatch is one observation of the real code that no edge of the model explains.
 type Mismatch struct {
 	Sut      string `json:"sut"`
+	Class    string `json:"class"`
 	Flow     string `json:"flow"`
 	Op       string `json:"op"`
 	Stimulus Ev     `json:"stimulus"`
@@ -79,32 +80,36 @@ type Mismatch struct {
 }
 
 type WalkReport struct {
-	Sut           string     `json:"sut"`
-	States        int        `json:"states"`
-	Edges         int        `json:"edges"`
-	EdgesCovered  int        `json:"edges_covered"`
-	Groups        int        `json:"stimulus_groups"`
-	GroupsCovered int        `json:"stimulus_groups_covered"`
-	Steps         int        `json:"steps"`
-	Resets        int        `json:"resets"`
-	RandomWalks   int        `json:"random_walks"`
-	Restarts      int        `json:"process_restarts"`
-	Mismatches    []Mismatch `json:"mismatches"`
-	Samples       [][]Ev     `json:"samples"`
+	Sut             string         `json:"sut"`
+	States          int            `json:"states"`
+	Edges           int            `json:"edges"`
+	EdgesCovered    int            `json:"edges_covered"`
+	Groups          int            `json:"stimulus_groups"`
+	GroupsCovered   int            `json:"stimulus_groups_covered"`
+	GroupsReachable int            `json:"stimulus_groups_reachable"`
+	GroupsBad       int            `json:"stimulus_groups_mismatched"`
+	Steps           int            `json:"steps"`
+	Resets          int            `json:"resets"`
+	RandomWalks     int            `json:"random_walks"`
+	Restarts        int            `json:"process_restarts"`
+	Mismatches      []Mismatch     `json:"mismatches"`
+	MismatchClasses map[string]int `json:"mismatch_classes"`
+	Samples         [][]Ev         `json:"samples"`
 }
 
 type walker struct {
-	lts     *LTS
-	sut     SUT
-	name    string
-	rep     *WalkReport
-	cur     string
-	path    []Ev
-	cfg     Ev
-	tries   map[string]int // state|stim -> attempts (nondeterministic groups)
-	rng     *rand.Rand
-	maxMis  int
-	badEdge map[string]bool // state|stim groups that produced a mismatch (not retried)
+	lts      *LTS
+	sut      SUT
+	name     string
+	rep      *WalkReport
+	cur      string
+	path     []Ev
+	cfg      Ev
+	tries    map[string]int // state|stim -> attempts (nondeterministic groups)
+	rng      *rand.Rand
+	maxMis   int
+	badEdge  map[string]bool // state|stim groups that produced a mismatch (not retried)
+	diverted map[string]int  // state|stim|to -> times a planned nondeterministic hop went elsewhere
 }
 
 func (w *walker) reset(init string) {
@@ -141,8 +146,22 @@ func (w *walker) step(stim string) bool {
 	}
 	op, _ := s["op"].(string)
 	w.badEdge[key] = true
-	if len(w.rep.Mismatches) < w.maxMis {
-		w.rep.Mismatches = append(w.rep.Mismatches, Mismatch{Sut: w.name, Flow: "lts", Op: op, Stimulus: s, Expected: exp,
+	// keep a few examples per class (operation + panic message, if any), count all
+	class := op
+	if rm, ok := res.(map[string]any); ok {
+		if pm, ok := rm["panic"].(string); ok {
+			if len(pm) > 48 {
+				pm = pm[:48]
+			}
+			class += "|panic:" + pm
+		}
+	}
+	if w.rep.MismatchClasses == nil {
+		w.rep.MismatchClasses = map[string]int{}
+	}
+	w.rep.MismatchClasses[class]++
+	if w.rep.MismatchClasses[class] <= 3 && len(w.rep.Mismatches) < w.maxMis {
+		w.rep.Mismatches = append(w.rep.Mismatches, Mismatch{Class: class, Sut: w.name, Flow: "lts", Op: op, Stimulus: s, Expected: exp,
 			Observed: Ev{"res": res, "st": st}, Cfg: w.cfg, Path: append([]Ev(nil), w.path...)})
 	}
 	return false
@@ -169,7 +188,13 @@ func (w *walker) groupDone(state, stim string) bool {
 
 // nearest returns the stimulus path (list of (state,stim)) from cur to the nearest state with an
 // undone group, following for each stimulus group only deterministic edges (single-edge groups).
-func (w *walker) nearest(from string) (route []string, target string, stim string, ok bool) {
+type hop struct {
+	stim string
+	from string
+	to   string
+}
+
+func (w *walker) nearest(from string) (route []hop, target string, stim string, ok bool) {
 	type qi struct {
 		s    string
 		prev int
@@ -187,9 +212,9 @@ func (w *walker) nearest(from string) (route []string, target string, stim strin
 		for _, k := range stims {
 			if !w.groupDone(s, k) {
 				// reconstruct
-				var rev []string
+				var rev []hop
 				for j := i; queue[j].prev >= 0; j = queue[j].prev {
-					rev = append(rev, queue[j].stim)
+					rev = append(rev, hop{stim: queue[j].stim, from: queue[queue[j].prev].s, to: queue[j].s})
 				}
 				for a, b := 0, len(rev)-1; a < b; a, b = a+1, b-1 {
 					rev[a], rev[b] = rev[b], rev[a]
@@ -199,13 +224,20 @@ func (w *walker) nearest(from string) (route []string, target string, stim strin
 		}
 		for _, k := range stims {
 			es := w.lts.Group[s][k]
-			if len(es) != 1 || w.badEdge[s+"|"+k] {
+			if w.badEdge[s+"|"+k] {
 				continue
 			}
-			t := es[0].To
-			if !seen[t] {
-				seen[t] = true
-				queue = append(queue, qi{s: t, prev: i, stim: k})
+			// deterministic groups, and outcomes of nondeterministic groups that this implementation
+			// has been seen to produce (the route is re-planned if it produces another one)
+			for _, e := range es {
+				if len(es) != 1 && (!e.covered || w.diverted[s+"|"+k+"|"+e.To] >= 3) {
+					continue
+				}
+				t := e.To
+				if !seen[t] {
+					seen[t] = true
+					queue = append(queue, qi{s: t, prev: i, stim: k})
+				}
 			}
 		}
 	}
@@ -277,7 +309,7 @@ func WalkResume(name string, sut SUT, lts *LTS, seed int64, walks, depth, maxMis
 		rep.Groups += len(g)
 	}
 	w := &walker{lts: lts, sut: sut, name: name, rep: rep, tries: st.Tries, rng: rand.New(rand.NewSource(seed + int64(st.Restarts)*7919)),
-		maxMis: maxMismatch, badEdge: st.Bad}
+		maxMis: maxMismatch, badEdge: st.Bad, diverted: map[string]int{}}
 	inits := make([]string, 0, len(lts.Inits))
 	for k := range lts.Inits {
 		inits = append(inits, k)
@@ -307,14 +339,24 @@ func WalkResume(name string, sut SUT, lts *LTS, seed int64, walks, depth, maxMis
 				continue
 			}
 			alive := true
-			for _, k := range route {
-				if !w.step(k) {
+			diverted := false
+			for _, h := range route {
+				if !w.step(h.stim) {
 					alive = false
 					break
 				}
+				if w.cur != h.to {
+					// a nondeterministic step took another branch: plan again from here (and stop relying
+					// on that branch if it keeps happening)
+					w.diverted[h.from+"|"+h.stim+"|"+h.to]++
+					diverted = true
+					break
+				}
 			}
-			if alive {
-				alive = w.step(stim)
+			if alive && !diverted {
+				if _, ok := w.lts.Group[w.cur][stim]; ok {
+					alive = w.step(stim)
+				}
 			}
 			if !alive {
 				w.reset(init)
@@ -361,6 +403,42 @@ func WalkResume(name string, sut SUT, lts *LTS, seed int64, walks, depth, maxMis
 	}
 	rep.GroupsCovered = 0
 	st.Done = true
+	// states the implementation can reach: closure from the initial states over edges that were observed
+	// or are the only edge of their stimulus group (alternatives of nondeterministic groups that this
+	// implementation never takes lead to states that cannot be visited)
+	reach := map[string]bool{}
+	var stack []string
+	for k := range lts.Inits {
+		reach[k] = true
+		stack = append(stack, k)
+	}
+	for len(stack) > 0 {
+		x := stack[len(stack)-1]
+		stack = stack[:len(stack)-1]
+		for k, es := range lts.Group[x] {
+			if w.badEdge[x+"|"+k] {
+				continue
+			}
+			for _, e := range es {
+				if (e.covered || len(es) == 1) && !reach[e.To] {
+					reach[e.To] = true
+					stack = append(stack, e.To)
+				}
+			}
+		}
+	}
+	rep.GroupsReachable, rep.GroupsBad = 0, 0
+	for x, g := range lts.Group {
+		if !reach[x] {
+			continue
+		}
+		for k := range g {
+			if w.badEdge[x+"|"+k] {
+				rep.GroupsBad++
+			}
+			rep.GroupsReachable++
+		}
+	}
 	for s, g := range lts.Group {
 		for k, es := range g {
 			if w.badEdge[s+"|"+k] {
